@@ -7,6 +7,7 @@ import ZstdVerif.Model.DDictHS
 import ZstdVerif.Model.Bits
 import ZstdVerif.Lemmas.ExecRT
 import ZstdVerif.Lemmas.TableSafe
+import ZstdVerif.Lemmas.SpreadRT
 namespace ZstdVerif.Props.C03
 open ZstdVerif ZstdVerif.DDictHS ZstdVerif.Gen.DDictHS
 
@@ -150,6 +151,20 @@ theorem block_tables_closed {mode : Nat} {src : Bytes} {ip iend maxSym maxLog : 
     (hspread : ∀ nc, FSE.readNCount src ip (iend - ip) maxSym = .ok nc → FSE.SpreadOK (FSE.spread nc.norm nc.tableLog) nc.norm nc.tableLog) :
     SeqClosed T log :=
   TableSafe.block_buildSeqTable_closed h hd hp hspread
+
+open TableSafe in
+/-- **block_tables_closed_any_bytes**: `block_tables_closed` with its spreading hypothesis PROVED (`FSE.spread_ok`, Lemmas/SpreadRT.lean: for
+every normalised distribution with `4 ≤ tableLog` the spreading of FSE_buildDTable_internal / ZSTD_buildFSETable_body respects the
+counts; `readNCount_normOK`: what FSE_readNCount accepts is normalised with `5 ≤ tableLog`): whatever the bytes, every table
+ZSTD_buildSeqTable hands to the sequence decoder keeps the FSE states inside the table, given only that the previous block's did -/
+theorem block_tables_closed_any_bytes {mode : Nat} {src : Bytes} {ip iend maxSym maxLog : Nat} {base bits : List Nat}
+    {dflt : List Gen.SeqCell} {dfltLog : Nat} {prev : Array Gen.SeqCell} {prevLog : Nat} {fseValid : Bool}
+    {T : Array Gen.SeqCell} {log used : Nat}
+    (h : Block.buildSeqTable mode src ip iend maxSym maxLog base bits dflt dfltLog prev prevLog fseValid = .ok (T, log, used))
+    (hd : SeqClosed dflt.toArray dfltLog) (hp : fseValid = true → SeqClosed prev prevLog) : SeqClosed T log :=
+  TableSafe.block_buildSeqTable_closed h hd hp (fun nc hr => by
+    obtain ⟨hN, _, h5, _⟩ := TableSafe.readNCount_normOK _ _ _ _ nc hr
+    exact FSE.spread_ok hN (by omega))
 
 open TableSafe in
 /-- **seq_states_inbounds** (ZSTD_decodeSequence / ZSTD_updateFseStateWithDInfo): with closed tables, for ANY reader state (any bytes) and any
